@@ -107,6 +107,24 @@ Proof. intros H Hv. unfold aexpand. rewrite H; [reflexivity | right; exact Hv]. 
 Lemma aname_none l v : alut_get l v = None -> aname l v = fmt_var v.
 Proof. intros H. unfold aname. rewrite H. reflexivity. Qed.
 
+(* ---- kinded values ---- *)
+(* the arguments of a call, by the kinds of the parameters: related plain values, or the two halves of a closure
+   of the world with the kind the parameter wants *)
+Definition arel (W : world) (K : kind) (av : sval) (lv : value) : Prop :=
+  match K with
+  | KP => vrel av lv
+  | KF _ _ => exists d, w_D W d /\ dkind d = K /\ av = SyltSem.SClos (fd_ci d) /\ lv = VFun (fd_fid d)
+  end.
+
+Inductive Forall3 {A B C} (R : A -> B -> C -> Prop) : list A -> list B -> list C -> Prop :=
+| F3_nil : Forall3 R [] [] []
+| F3_cons a b c la lb lc : R a b c -> Forall3 R la lb lc -> Forall3 R (a :: la) (b :: lb) (c :: lc).
+
+Lemma Forall3_length {A B C} (R : A -> B -> C -> Prop) la lb lc :
+  Forall3 R la lb lc -> length lb = length la /\ length lc = length la.
+Proof. induction 1; cbn; [auto | lia]. Qed.
+
+
 Section Sim.
 Variable pv : N.
 Variable sv : N.
@@ -437,36 +455,42 @@ Definition L_stmts (g : nat) : Prop :=
     exists b l', cshape l (concat cs) b l' c c'.
 
 Definition L_fb (g : nat) : Prop :=
-  forall k body ctx c code c' sc scr l,
+  forall k body rk ctx c code c' sc l,
     lower_fbody (statement g) (expression g) body ctx c = Ok (code, c') ->
-    frag_stmts pv sv bound fl k sc body = Some scr ->
+    fbody_check (frag_stmts pv sv bound fl k sc) (fun fl1 sc1 x => frag_fexpr pv sv bound fl1 k sc1 x) k body rk = true ->
     exists b l', cshape l code b l' c c'.
+
+Definition L_fexpr (g : nat) : Prop :=
+  forall k x K ctx c code v c' sc l,
+    expression g x ctx c = Ok ((code, v), c') ->
+    frag_fexpr pv sv bound fl k sc x = Some K ->
+    exists b l', cshape l code b l' c c' /\ c <= v /\ v < c'.
 
 (* ---- functions.  The body of a function, run from the environment of a call: it falls off the end (the
    value is nil) or returns the value of its last expression; the relation holds at the end for the scope
    the body ends with, which extends the one it started with ---- *)
-Definition fb_post (sc : list N) (e : senv) (E : env) (stL : state) (b : block)
+Definition fb_post (rk : kind) (sc : list N) (e : senv) (E : env) (stL : state) (b : block)
            (r : SyltSem.res sval) (st' : sstate) : Prop :=
   match r with
   | SyltSem.RVal v =>
       exists fl' W' E' sg stL' sc' e',
         ExecS E b stL (ROk (E', sg) stL') /\
-        ((sg = SigNormal /\ v = SV Values.VLuaNil) \/ (exists lv, sg = SigReturn [lv] /\ vrel v lv)) /\
+        ((sg = SigNormal /\ v = SV Values.VLuaNil /\ rk = KP) \/ (exists lv, sg = SigReturn [lv] /\ arel W' rk v lv)) /\
         rel pv sv bound u fl' W' sc' e' st' E' stL' /\ wsub W W' /\ sext sc e e' /\ incl sc sc' /\ keep sc E E' /\
         (s_ncell stL <= s_ncell stL')%positive
   | SyltSem.RStop o => exists ev stL', ExecS E b stL (RErr ev stL') /\ SyltSem.trace st' = s_out stL'
   | SyltSem.RAbrupt (SyltSem.CReturn v) =>
       exists fl' W' sc' e' E' Er stL' lv,
-        ExecS E b stL (ROk (Er, SigReturn [lv]) stL') /\ vrel v lv /\
+        ExecS E b stL (ROk (Er, SigReturn [lv]) stL') /\ arel W' rk v lv /\
         rel pv sv bound u fl' W' sc' e' st' E' stL' /\ wsub W W' /\ sext sc e e' /\ incl sc sc' /\ keep sc E E' /\
         (s_ncell stL <= s_ncell stL')%positive
   | SyltSem.RAbrupt _ => True
   end.
 
-(* an early return out of the body *)
+(* an early return out of the body of a function with a plain result *)
 Lemma fb_of_exit {A} ctx sc e c c' E stL b v st' :
   exit_post ctx sc e c c' E stL b (@SyltSem.RAbrupt A (SyltSem.CReturn v)) st' ->
-  fb_post sc e E stL b (SyltSem.RAbrupt (SyltSem.CReturn v)) st'.
+  fb_post KP sc e E stL b (SyltSem.RAbrupt (SyltSem.CReturn v)) st'.
 Proof.
   intros (rl & Hx & (E' & stL' & lv & -> & Hv & Hr & Hn & _)). exists fl, W, sc, e, E, E', stL', lv.
   split; [exact Hx|]. split; [exact Hv|]. split; [exact Hr|]. split; [apply wsub_refl|].
@@ -474,43 +498,29 @@ Proof.
 Qed.
 
 Definition P_fb (n : nat) : Prop :=
-  forall g k body ctx c code c' e st r st' sc scout l E stL F,
+  forall g k body rk ctx c code c' e st r st' sc l E stL F,
     SyltSem.block_value n e body st = (r, st') ->
     lower_fbody (statement g) (expression g) body ctx c = Ok (code, c') ->
-    frag_stmts pv sv bound fl k sc body = Some scout -> ucovers u code -> ctx_ok l F E c c' ->
+    fbody_check (frag_stmts pv sv bound fl k sc) (fun fl1 sc1 x => frag_fexpr pv sv bound fl1 k sc1 x) k body rk = true ->
+    ucovers u code -> ctx_ok l F E c c' ->
     rel pv sv bound u fl W sc e st E stL -> interesting r ->
-    exists b l', cshape l code b l' c c' /\ fb_post sc e E stL b r st'.
+    exists b l', cshape l code b l' c c' /\ fb_post rk sc e E stL b r st'.
 
 (* a call seen from the caller: the temporaries of the caller keep their values *)
 Definition call_frame (E : env) (stL stL' : state) : Prop :=
   (s_ncell stL <= s_ncell stL')%positive /\
   forall t p, bound <= t -> sget (fmt_var t) E = Some p -> get_cell stL' p = get_cell stL p.
 
-(* the arguments of a call, by the kinds of the parameters: related plain values, or the two halves of a closure
-   of the world with the kind the parameter wants *)
-Definition arel (K : kind) (av : sval) (lv : value) : Prop :=
-  match K with
-  | KP => vrel av lv
-  | KF _ _ => exists d, w_D W d /\ dkind d = K /\ av = SyltSem.SClos (fd_ci d) /\ lv = VFun (fd_fid d)
-  end.
-
-Inductive Forall3 {A B C} (R : A -> B -> C -> Prop) : list A -> list B -> list C -> Prop :=
-| F3_nil : Forall3 R [] [] []
-| F3_cons a b c la lb lc : R a b c -> Forall3 R la lb lc -> Forall3 R (a :: la) (b :: lb) (c :: lc).
-
-Lemma Forall3_length {A B C} (R : A -> B -> C -> Prop) la lb lc :
-  Forall3 R la lb lc -> length lb = length la /\ length lc = length la.
-Proof. induction 1; cbn; [auto | lia]. Qed.
-
-(* a call of a closure of the world *)
+(* a call of a closure of the world; the result has the kind the closure promises: if it is a function, a closure of
+   a world that knows at least what W knows *)
 Definition P_apply (n : nat) : Prop :=
   forall d avs lvs sc e st E stL r st',
-    rel pv sv bound u fl W sc e st E stL -> w_D W d -> Forall3 arel (fd_pk d) avs lvs ->
+    rel pv sv bound u fl W sc e st E stL -> w_D W d -> Forall3 (arel W) (fd_pk d) avs lvs ->
     SyltSem.apply n (SyltSem.SClos (fd_ci d)) avs st = (r, st') -> interesting r ->
     match r with
     | SyltSem.RVal v =>
-        exists vs stL', Call (VFun (fd_fid d)) lvs stL (ROk vs stL') /\ vrel v (first vs) /\
-                        rel pv sv bound u fl W sc e st' E stL' /\ call_frame E stL stL'
+        exists W1 vs stL', wsub W W1 /\ Call (VFun (fd_fid d)) lvs stL (ROk vs stL') /\ arel W1 (fd_rk d) v (first vs) /\
+                           rel pv sv bound u fl W1 sc e st' E stL' /\ call_frame E stL stL'
     | SyltSem.RStop o => exists ev stL', Call (VFun (fd_fid d)) lvs stL (RErr ev stL') /\ SyltSem.trace st' = s_out stL'
     | SyltSem.RAbrupt _ => False
     end.
